@@ -16,7 +16,7 @@ use std::mem::replace;
 use std::sync::Arc;
 use tokio::sync::mpsc::error::SendError;
 use tokio::sync::{mpsc, oneshot, Mutex};
-use tokio::time::{timeout, Instant};
+use tokio::time::{sleep_until, timeout, Instant};
 
 pub mod acceptor;
 pub mod initiator;
@@ -371,6 +371,13 @@ async fn receive_ack(
     loop {
         match timeout(delta, &mut ack_recv).await {
             Ok(res) => {
+                // Keep the transaction until 64*T1 have passed so that late retransmissions of
+                // the INVITE are still absorbed by it instead of starting a new call (RFC 6026)
+                tokio::spawn(async move {
+                    sleep_until(abandon).await;
+                    drop(accepted);
+                });
+
                 // Unwrap should be safe as there should never be
                 // multiple invite transactions
                 return Ok(res.unwrap());
